@@ -24,6 +24,8 @@ fn main() {
         "async" => async_cmd(&a),
         #[cfg(feature = "parallel")]
         "rendezvous" => rendezvous_cmd(&a),
+        #[cfg(feature = "parallel")]
+        "pools" => pools_cmd(&a),
         _ => {
             eprintln!("usage: exec random ...");
             std::process::exit(2)
@@ -401,7 +403,7 @@ fn async_cmd(a: &Args) {
         let on_worker = p.current_num_threads() >= 2 && rng.gen_bool(a.num("ponworker", 0.15));
         let flags = (shredh::unwind::active(), shredh::record::early_pool(), noise, zst);
         let (ppanic, quiet_us, hold_ms, setuplog): (f64, u64, u64, bool) = (a.num("ppanic", 0.0), a.num("quiet-us", 300), a.num("hold-ms", 3), a.flag("setuplog"));
-        let mut session = |rng: &mut StdRng| -> Vec<serde_json::Value> {
+        let session = |rng: &mut StdRng| -> Vec<serde_json::Value> {
             let mut s = record_async(&prog, Variant::identity(&res), k + 1, p.clone());
             // now and then an ordinary top-level system panics inside the background job
             let mut panics = Vec::new();
@@ -744,5 +746,188 @@ fn schedule_cmd(a: &Args) {
         "{}",
         json!({"behaviours_emitted":total,"forced":n,"layout_drift":layout_drift,"followed_exactly":followed,
                "runset_mismatch":mismatch,"deviated":deviations,"events":nev,"samples":samples})
+    );
+}
+
+// ---------------------------------------------------------------------------------------
+// Pool.tla: the shared thread-pool handle of builders, dispatchers and batches
+
+#[cfg(feature = "parallel")]
+mod poolx {
+    use std::sync::{Arc, Mutex};
+
+    use shred::{BatchController, Dispatcher, DispatcherBuilder, System, World};
+
+    /// logs on which pool it ran: a worker of user pool p is named "vp<p>-<i>"; anything else is 0
+    pub struct Probe {
+        pub b: usize,
+        pub log: Arc<Mutex<Vec<(usize, usize)>>>,
+    }
+    impl<'a> System<'a> for Probe {
+        type SystemData = ();
+        fn run(&mut self, _: ()) {
+            let t = std::thread::current();
+            let p = t.name().and_then(|n| n.strip_prefix("vp")).and_then(|r| r.split('-').next()).and_then(|x| x.parse::<usize>().ok()).unwrap_or(0);
+            self.log.lock().unwrap().push((self.b, p));
+        }
+    }
+    pub struct Once;
+    impl<'a, 'b, 'c> BatchController<'a, 'b, 'c> for Once {
+        type BatchSystemData = ();
+        fn run(&mut self, world: &'c World, dispatcher: &mut Dispatcher<'a, 'b>) {
+            dispatcher.dispatch(world);
+        }
+    }
+    pub type B = DispatcherBuilder<'static, 'static>;
+}
+
+/// exec pools --in replay.txt | --random N --out trace.ndjson : call sequences new / add_pool / add_batch / build on
+/// real builders; afterwards every top-level dispatcher is dispatched once and every probe reports its pool.
+#[cfg(feature = "parallel")]
+fn pools_cmd(a: &Args) {
+    use poolx::*;
+    use shred::{Dispatcher, World};
+    use std::io::BufRead;
+    use std::sync::Mutex;
+    let out = a.get("out").expect("--out");
+    let seed: u64 = a.num("seed", 1);
+    let keep: usize = a.num("keep", 400);
+    let mut rng = StdRng::seed_from_u64(seed);
+    let mut w = BufWriter::new(File::create(out).unwrap());
+    let np_max = 8usize;
+    let pools: Vec<Arc<rayon::ThreadPool>> = (1..=np_max)
+        .map(|p| Arc::new(rayon::ThreadPoolBuilder::new().num_threads(2).thread_name(move |i| format!("vp{}-{}", p, i)).build().unwrap()))
+        .collect();
+    // behaviours: (calls, expectation of the model or None)
+    let mut behaviours: Vec<(Vec<(String, usize, usize)>, Option<Vec<usize>>)> = Vec::new();
+    if let Some(inp) = a.get("in") {
+        for line in std::io::BufReader::new(File::open(inp).unwrap()).lines() {
+            let line = line.unwrap();
+            let (Some(s), Some(e)) = (line.find("\"{"), line.rfind("}\"")) else { continue };
+            let Ok(inner) = serde_json::from_str::<String>(&line[s..e + 2]) else { continue };
+            let st: serde_json::Value = serde_json::from_str(&inner).unwrap();
+            let calls: Vec<(String, usize, usize)> = st["hist"]
+                .as_array()
+                .unwrap()
+                .iter()
+                .map(|c| (c[0].as_str().unwrap().to_string(), c[1].as_u64().unwrap() as usize, c[2].as_u64().unwrap() as usize))
+                .collect();
+            let expect: Vec<usize> = st["expect"].as_array().unwrap().iter().map(|x| x.as_u64().unwrap() as usize).collect();
+            behaviours.push((calls, Some(expect)));
+        }
+    }
+    let max: usize = a.num("max", usize::MAX);
+    if behaviours.len() > max {
+        behaviours.shuffle(&mut rng);
+        behaviours.truncate(max);
+    }
+    for _ in 0..a.num("random", 0usize) {
+        // random well-formed call sequences over up to 6 builders and 4 pools
+        let nb = rng.gen_range(1..=6usize);
+        let mut state: Vec<u8> = vec![0; nb + 1]; // 0 none, 1 open, 2 closed
+        let mut calls = Vec::new();
+        let mut born = 0usize;
+        for _ in 0..rng.gen_range(2..=16) {
+            let open: Vec<usize> = (1..=nb).filter(|b| state[*b] == 1).collect();
+            let x = rng.gen_range(0..10);
+            if (x < 3 || open.is_empty()) && born < nb {
+                born += 1;
+                state[born] = 1;
+                calls.push(("new".to_string(), born, 0));
+            } else if x < 6 && !open.is_empty() {
+                calls.push(("addpool".to_string(), *open.choose(&mut rng).unwrap(), rng.gen_range(1..=4)));
+            } else if x < 9 && open.len() >= 2 {
+                let o = *open.choose(&mut rng).unwrap();
+                let i = *open.iter().filter(|b| **b != o).collect::<Vec<_>>().choose(&mut rng).unwrap().clone();
+                state[i] = 2;
+                calls.push(("addbatch".to_string(), o, i));
+            } else if !open.is_empty() {
+                let b = *open.choose(&mut rng).unwrap();
+                state[b] = 2;
+                calls.push(("build".to_string(), b, 0));
+            }
+        }
+        for b in 1..=nb {
+            if state[b] == 1 {
+                calls.push(("build".to_string(), b, 0));
+            }
+        }
+        behaviours.push((calls, None));
+    }
+    let (mut agree, mut disagree, mut written, mut nev, mut defaults) = (0usize, 0usize, 0usize, 0usize, 0usize);
+    let total = behaviours.len();
+    let mut samples = Vec::new();
+    for (k, (calls, expect)) in behaviours.iter().enumerate() {
+        let log = Arc::new(Mutex::new(Vec::new()));
+        let nb = calls.iter().map(|c| c.1.max(if c.0 == "addbatch" { c.2 } else { 0 })).max().unwrap_or(0);
+        let mut builders: Vec<Option<B>> = (0..=nb).map(|_| None).collect();
+        let mut tops: Vec<(usize, Dispatcher<'static, 'static>)> = Vec::new();
+        let mut evs = vec![json!({"ev":"reset","prog":k + 1,"var":0})];
+        let res = std::panic::catch_unwind(std::panic::AssertUnwindSafe(|| {
+            for (op, x, y) in calls {
+                match op.as_str() {
+                    "new" => {
+                        builders[*x] = Some(B::new().with(Probe { b: *x, log: log.clone() }, "probe", &[]));
+                        evs.push(json!({"ev":"pnew","b":x}));
+                    }
+                    "addpool" => {
+                        builders[*x].as_mut().unwrap().add_pool(pools[*y - 1].clone());
+                        evs.push(json!({"ev":"paddpool","b":x,"p":y}));
+                    }
+                    "addbatch" => {
+                        let inner = builders[*y].take().unwrap();
+                        builders[*x].as_mut().unwrap().add_batch::<Once>(Once, inner, &format!("batch{}", y), &[]);
+                        evs.push(json!({"ev":"paddbatch","o":x,"i":y}));
+                    }
+                    _ => {
+                        let d = builders[*x].take().unwrap().build();
+                        tops.push((*x, d));
+                        evs.push(json!({"ev":"pbuild","b":x}));
+                    }
+                }
+            }
+            let world = World::empty();
+            for (_, d) in tops.iter_mut() {
+                d.dispatch(&world);
+            }
+        }));
+        let mut got: Vec<(usize, usize)> = log.lock().unwrap().clone();
+        got.sort();
+        for (b, p) in &got {
+            evs.push(json!({"ev":"pran","b":b,"pool":p}));
+            if *p == 0 {
+                defaults += 1;
+            }
+        }
+        if res.is_err() {
+            evs.push(json!({"ev":"pran","b":0,"pool":0,"panic":true}));
+        }
+        let ok = match expect {
+            Some(e) => {
+                let want: Vec<(usize, usize)> = e.iter().enumerate().filter(|(_, p)| **p != 99).map(|(i, p)| (i + 1, *p)).collect();
+                res.is_ok() && want == got
+            }
+            None => res.is_ok(),
+        };
+        if ok {
+            agree += 1;
+        } else {
+            disagree += 1;
+        }
+        // every disagreeing run and a sample of the others are also validated by PoolTrace
+        if !ok || expect.is_none() || written < keep && rng.gen_bool((keep as f64 / total.max(1) as f64).min(1.0)) {
+            written += 1;
+            nev += evs.len();
+            write_events(&mut w, &evs);
+        }
+        if samples.len() < 2 {
+            samples.push(json!({"calls": calls, "ran": got}));
+        }
+    }
+    w.flush().unwrap();
+    println!(
+        "{}",
+        json!({"behaviours":total,"agree":agree,"disagree":disagree,"blocks_written":written,"events":nev,
+               "probes_on_a_library_made_pool":defaults,"samples":samples})
     );
 }
